@@ -21,10 +21,10 @@ type Spec struct {
 	Sample   time.Duration `json:"sample"`   // quiescent sampling period
 	Hang     time.Duration `json:"hang,omitempty"`
 	// Premises that hold for this spec (decide which oracles apply).
-	Benign      bool `json:"benign,omitempty"`       // C02/C07 premise: latency<H/2, no faults, no outsider, no health/conn
-	NoPreempt   bool `json:"no_preempt,omitempty"`   // no takeover-enabled instance
-	Prompt      bool `json:"prompt,omitempty"`       // C10 promptness premise (l<=H/20, fault free)
-	Tags        []string `json:"tags,omitempty"`
+	Benign    bool     `json:"benign,omitempty"`     // C02/C07 premise: latency<H/2, no faults, no outsider, no health/conn
+	NoPreempt bool     `json:"no_preempt,omitempty"` // no takeover-enabled instance
+	Prompt    bool     `json:"prompt,omitempty"`     // C10 promptness premise (l<=H/20, fault free)
+	Tags      []string `json:"tags,omitempty"`
 	// Amplifier: at gofail sites inside the library (see DESIGN §5) sleep a random
 	// virtual duration in [0, YieldMax] with probability YieldP.
 	YieldP   float64       `json:"yield_p,omitempty"`
@@ -47,7 +47,7 @@ type InstSpec struct {
 	// PromoteLinger: after its context is done the (blocking) promotion callback keeps
 	// running for this long before it returns (a user task that is slow to wind down)
 	PromoteLinger time.Duration `json:"promote_linger,omitempty"`
-	DemoteDelay  time.Duration `json:"demote_delay,omitempty"`
+	DemoteDelay   time.Duration `json:"demote_delay,omitempty"`
 }
 
 // Action kinds:
@@ -69,6 +69,7 @@ type Action struct {
 	Rule     *FaultRule    `json:"rule,omitempty"`
 	OrDemote bool          `json:"or_demote,omitempty"`
 	Sync     bool          `json:"sync,omitempty"` // run blocking calls on the driver goroutine
+	Chain    bool          `json:"chain,omitempty"` // follows the previous action at the same virtual instant
 }
 
 type StopVariant struct {
